@@ -524,6 +524,57 @@ def check_corpus(chk: core.Check):
                              {"cls": cname, "op": "cat_mixed", "fields": bad, "corpus": "mixed_fields"})
             except Exception as e:   # noqa
                 chk.fail("selection total", case, repr(e)[:300], {"cls": cname, "op": "cat_mixed", "corpus": "mixed_fields", "exc": type(e).__name__})
+        # (e) ONE dictionary converted back more than once (the same exported dictionary feeds two consumers), in both layouts: every
+        #     conversion gives the same set, and the dictionary itself is left as it was
+        # (f) a partition with a ONE-ROW piece: each piece through save / load (both layouts) and through a pickle, then concatenated
+        import tempfile
+
+        import h5py
+
+        for cname, K in (("base", BaseSamples), ("samples", Samples), ("smc", SMCSamples)):
+            extra = {"beta": 0.5} if cname == "smc" else {}
+            full = K(x=xs, xp=xp, dtype=dt, **cols, **extra)
+            for flat in (True, False):
+                case = {"level": "corpus", "what": "one dictionary converted back three times", "cls": cname, "ns": nsn, "flat": flat}
+                chk.count("corpus:dict_reused")
+                chk.case(case if chk.evaluations < 40 else None, json.dumps(case))
+                try:
+                    d_ = full[1:5].to_dict(flat=flat)
+                    keys0 = sorted(d_.keys()); inner0 = sorted(d_["samples"].keys()) if not flat else None
+                    outs = [K.from_dict(d_) for _ in range(3)]
+                    bad = [j for j, o_ in enumerate(outs) if not (np.array_equal(npf(o_.x), xs[1:5]) and all(np.array_equal(npf(getattr(o_, k)), cols[k][1:5]) for k in cols))]
+                    changed = sorted(d_.keys()) != keys0 or (not flat and sorted(d_["samples"].keys()) != inner0)
+                    if bad or changed:
+                        chk.fail("dict round trip keeps rows aligned", case, f"conversions {bad} of the same dictionary differ from the set it was made from; dictionary changed by from_dict: {changed}",
+                                 {"cls": cname, "op": "dict", "fields": [], "corpus": "dict_reused"})
+                except Exception as e:   # noqa
+                    chk.fail("dict round trip total", case, repr(e)[:300], {"cls": cname, "op": "dict", "corpus": "dict_reused", "exc": type(e).__name__})
+            for how in ("save_flat", "save_nested", "pickle", "dict"):
+                case = {"level": "corpus", "what": "partition with a one-row piece, every piece through " + how, "cls": cname, "ns": nsn}
+                chk.count("corpus:one_row_piece")
+                chk.case(case if chk.evaluations < 40 else None, json.dumps(case))
+                try:
+                    pieces = [full[0:3], full[3:4], full[4:6]]
+                    back = []
+                    with tempfile.TemporaryDirectory(prefix="aspire_verif_") as td:
+                        for j, pc in enumerate(pieces):
+                            if how.startswith("save"):
+                                with h5py.File(f"{td}/p{j}.h5", "w") as f:
+                                    pc.save(f, "s", flat=(how == "save_flat"))
+                                with h5py.File(f"{td}/p{j}.h5", "r") as f:
+                                    back.append(K.load(f, "s"))
+                            elif how == "pickle":
+                                back.append(pickle.loads(pickle.dumps(pc)))
+                            else:
+                                back.append(K.from_dict(pc.to_dict(flat=False)))
+                    lens = [len(b_) for b_ in back]
+                    u = K.concatenate(back)
+                    okc = np.array_equal(npf(u.x), xs) and all(getattr(u, k) is not None and np.array_equal(npf(getattr(u, k)), cols[k]) for k in cols)
+                    if lens != [3, 1, 2] or not okc:
+                        chk.fail("concatenating the pieces of a partition restores the original", case, f"piece lengths after {how}: {lens} (expected [3, 1, 2]); pooled set equals the original: {okc}",
+                                 {"cls": cname, "op": "partcat", "fields": [], "corpus": "one_row_piece"})
+                except Exception as e:   # noqa
+                    chk.fail("selection total", case, repr(e)[:300], {"cls": cname, "op": "partcat", "corpus": "one_row_piece", "exc": type(e).__name__})
         # (c) evidence attached to a set without weights
         for missing in ("log_q", "log_likelihood", "log_prior"):
             for how in ("to_standard_samples", "attribute"):
